@@ -4,6 +4,12 @@ import json, subprocess, sys
 
 CHECKS = {
  # id: (category, technique, text, note, design_ref)
+ "C01": ("exploration", "reference-model audit after every call on generated fork trees (pure consensus replay as oracle)",
+         "Every AddBlocks/AddValidatedV2Blocks call of generated histories (random fork trees x corruptions x schedules, plus the enumerated invalid-fork class d<=L<=6, k<=6 per regime) is predicted by a model built only from core/consensus labels and audited: tip, tip state bytes vs pure replay, index, blocks, states, element buckets and served proofs, work monotonicity, unchanged served view after any failed submission or rolled-back reorg, no panic.",
+         "core/consensus is the trusted oracle; histories <= ~400 blocks on small test networks; future-block rule exercised only far from the boundary.", "§3 C01"),
+ "C02": ("exploration", "differential monitoring: reorged node vs linear twin vs pure ledger, byte-level served views",
+         "Complete served views (tip state, index, stored blocks with supplements, element buckets incl. expiration lists, served elements with Merkle proofs, window ids, next block's expiring contracts) of a node driven through forks, reorgs and failed reorgs are compared byte for byte with a fresh node fed the final best chain linearly, at PRNG-chosen points of generated histories in all regimes, for checkpoint-initialised stores, and in the dedicated expiration-order scenario (known finding KF-C02-1).",
+         "Tree-bucket nodes beyond the leaf count are excluded (never read by contract; served proofs are compared instead); v1 contracts get distinct window ends outside the order scenarios.", "§3 C02"),
  "C17": ("exploration", "exhaustive operation-sequence enumeration against an overlay-map reference model on every backend",
          "Every operation sequence over a 9-operation alphabet up to length 5 (quick) / 7 (thorough) is executed on MemDB, CacheDB over MemDB/CacheDB/Bolt and BoltChainDB, comparing Get of every key and a full Iter after each operation and the durable image at the end with the model; plus long PRNG sequences. Exhaustive within the stated bound, sampled beyond it.",
          "Trusts bbolt's transaction semantics; bucket handles are re-fetched per operation as DBStore does; keys and values non-empty.", "§3 C17"),
